@@ -282,6 +282,9 @@ impl <T: ArrayElement> ArrayAxis<T> for Array<T> {
             .sorted()
             .collect::<Vec<usize>>();
         let mut new_shape = self.get_shape()?;
+        if axes.iter().enumerate().any(|(idx, &item)| item > new_shape.len() + idx) {
+            return Err(ArrayError::AxisOutOfBounds)
+        }
 
         for item in axes { new_shape.insert(item, 1) }
         self.reshape(&new_shape)
@@ -295,6 +298,7 @@ impl <T: ArrayElement> ArrayAxis<T> for Array<T> {
                 .rev()
                 .collect::<Vec<usize>>();
             let mut new_shape = self.get_shape()?;
+            for &axis in &axes { self.axis_in_bounds(axis)?; }
 
             if axes.iter().any(|a| new_shape[*a] != 1) {
                 Err(ArrayError::SqueezeShapeOfAxisMustBeOne)
